@@ -201,3 +201,32 @@ pub fn check_consistency_above(n: &Node, table: &BlockTable, max_id: u64, floor:
     }
     v
 }
+
+
+/// Footprint of finding F47: two spendable utxoset entries with the same owner and coordinates but
+/// different amounts - an original output and the payout-adjusted input of an unwound rebroadcast
+/// transaction, re-inserted under a key that never was an output. Returns a description of one.
+pub fn phantom_rebroadcast_input(chain: &saito_core::core::consensus::blockchain::Blockchain) -> Option<String> {
+    use saito_core::core::consensus::slip::Slip;
+    let mut seen: BTreeMap<(Vec<u8>, u64, u64, u8), u64> = BTreeMap::new();
+    for (k, spendable) in chain.utxoset.iter() {
+        if !*spendable {
+            continue;
+        }
+        let s = match Slip::parse_slip_from_utxokey(k) {
+            Ok(s) => s,
+            Err(_) => continue,
+        };
+        if s.amount == 0 {
+            continue;
+        }
+        let coord = (s.public_key.to_vec(), s.block_id, s.tx_ordinal, s.slip_index);
+        if let Some(other) = seen.get(&coord) {
+            if *other != s.amount {
+                return Some(format!("output {}-{}-{} is in the utxoset twice, with amounts {} and {}", s.block_id, s.tx_ordinal, s.slip_index, other.min(&s.amount), other.max(&s.amount)));
+            }
+        }
+        seen.insert(coord, s.amount);
+    }
+    None
+}
